@@ -97,6 +97,7 @@ def main():
     not_ts = ["hello", "", "2024-13-01T00:00:00Z", "2023-02-30T10:00:00+01:00", "2024-01-01T25:00:00Z", "2024-01-01T00:00:00+24:00"]
     strings = ["", "a", "A", "ab", "b", "abc", "a?c", "a*b", "axb", "[a]", "a[b", "a]b", "a\\b", "*", "Straße", "STRASSE", "é", "É"]
     base_vals = [None, True, False, 0, 1, -1, 1.5, 1.0, 2, [], {}, [1], {"k": 1}]
+    big_vals = [10000000000, 10000000001, 1700000000000, 1700000001500, -10000000001, 9007199254740993]     # large numbers that differ only slightly
     var_vals = [MISSING] + base_vals + strings[:8] + ts_vals[:6] + not_ts[:3]
     const_vals = base_vals + strings[:8] + ts_vals[:7] + not_ts[:2]
     patterns = ["", "*", "a*", "*a", "a*b", "a?c", "a\\*b", "\\*", "[a]", "a[b", "a]b", "[!a]", "a**b", "*a*b*", "a\\b", "\\\\*",
@@ -194,9 +195,12 @@ def main():
                 ck.violation("Choice state neither moved on nor failed exactly once: %s" % obs[1], {"group": group, "state": state, "input": doc})
                 return
             texts = used_ts(*(doc_strings(doc) + [t for r in rules for t in rule_ts(r)]))
-            if not state_extra:
+            eff = doc
+            if state_extra and state_extra.get("InputPath") == "$.in" and state_extra.get("OutputPath", "$") == "$":
+                eff = doc["in"]            # the rules, *Path operands included, are evaluated on the effective input, which is also what is passed on
+            if not state_extra or eff is not doc:
                 oracle_cases.append("(%s, %s, %s, %s, %s)" % (
-                    envterm(texts), coq_json(doc),
+                    envterm(texts), coq_json(eff),
                     coq_list(["(%s, %s)" % (rule_term(r), coq_str("M%d" % i)) for i, r in enumerate(rules)]),
                     coq_option(coq_str("D")) if default else "None", o))
                 descs.append({"group": group, "state": state, "input": doc, "observed": obs[:3]})
@@ -226,6 +230,14 @@ def main():
                 run_case(doc_of(var, c), [("cmp", op, ["v"], c)], True, "op")
                 if op in VALUE_OPS and (thorough or rng.random() < 0.3):
                     run_case(doc_of(var, c), [("cmppath", op, ["v"], ["c"])], rng.random() < 0.5, "op_path")
+    # G1b: numeric operators on large numbers that differ only slightly
+    for op in [o for o in VALUE_OPS if o.startswith("Numeric")]:
+        for a in big_vals:
+            for c in big_vals:
+                if thorough or rng.random() < 0.5:
+                    run_case(doc_of(a, c), [("cmp", op, ["v"], c)], True, "op")
+                    if rng.random() < 0.3:
+                        run_case(doc_of(a, c), [("cmppath", op, ["v"], ["c"])], True, "op_path")
     # G2: StringMatches patterns x subjects
     for p in patterns:
         for s in subjects:
